@@ -411,6 +411,7 @@ func (t *runTracer) probe(point string, g *hermes.GlobalVarsMain, extra ...inter
 		e["zeit"] = zeit
 		e["old"] = fx("oldGRW", extra[1].(float64), 6)
 		e["doy"] = g.TAG.Index + 1
+		e["year"] = 1900 + g.J
 		soilParams(e, g)
 		e["WG1"] = fxs("WG1", g.WG[1][:n], 9)
 	case "day.inputs":
